@@ -1278,7 +1278,8 @@ class System:
         starting_bus = 0
         visit_idx = 0
 
-        while True:
+        # nothing to search if every bus is islanded (no in-service branch)
+        while len(self.Bus.islanded_buses) < n:
             if starting_bus in self.Bus.islanded_buses:
                 starting_bus += 1
                 continue
@@ -1333,7 +1334,8 @@ class System:
             self.Bus.islands.extend([[item] for item in self.Bus.islanded_buses])
 
         if len(self.Bus.island_sets) == 0:
-            self.Bus.islands.append(list(range(n)))
+            if len(self.Bus.islanded_buses) == 0:
+                self.Bus.islands.append(list(range(n)))
         else:
             self.Bus.islands.extend(self.Bus.island_sets)
 
